@@ -38,7 +38,26 @@ Definition embed_relem (r : a_relem) : route_param :=
 
 Lemma wf_relem_parts r : wf_relem r = true ->
   wf_nameaddr (ar_na r) = true /\ forallb wf_param (ar_params r) = true.
-Proof. unfold wf_relem. intros H. apply andb_true_iff in H. exact H. Qed.
+Proof.
+  unfold wf_relem. intros H. apply andb_true_iff in H. destruct H as [H _].
+  apply andb_true_iff in H. exact H.
+Qed.
+Lemma wf_relem_tail r : wf_relem r = true -> ends_with_uspace (rp_params (ar_params r)) = false.
+Proof.
+  unfold wf_relem. intros H. apply andb_true_iff in H. destruct H as [_ H].
+  apply negb_true_iff in H. exact H.
+Qed.
+(* strings.TrimSpace (Unicode white space) leaves the parameter tail of a well-formed element alone:
+   no ASCII blank inside, ';' in front, no Unicode space at the end (the third conjunct of wf_relem,
+   which is necessary: BytesLemmas.trim_space_go_ends) *)
+Lemma rp_params_trim_go r : wf_relem r = true ->
+  trim_space_go (rp_params (ar_params r)) = rp_params (ar_params r).
+Proof.
+  intros H. destruct (wf_relem_parts r H) as [_ Hps]. apply trim_space_go_nospace.
+  - apply rp_params_nospace, Hps.
+  - apply starts_with_uspace_ascii. destruct (ar_params r); reflexivity.
+  - apply wf_relem_tail, H.
+Qed.
 
 Theorem parse_route_param_rp r : wf_relem r = true ->
   parse_route_param (rp_relem r) = Ok (embed_relem r).
@@ -47,11 +66,25 @@ Proof.
   unfold parse_route_param, rp_relem.
   destruct (nameaddr_cut (ar_na r) (rp_params (ar_params r)) Hn) as (_ & E2 & _ & E4 & E5).
   rewrite E2, E4, E5, parse_name_addr_rp by exact Hn. cbn [rbind].
-  rewrite trim_space_nospace by (apply rp_params_nospace, Hps).
+  rewrite rp_params_trim_go by exact H.
   unfold embed_relem. destruct (ar_params r) as [|p ps]; [reflexivity|].
   rewrite rp_params_cons. change (Ascii.eqb ";"%char ";"%char) with true. cbv iota.
   rewrite parse_generic_params_tail by exact Hps. reflexivity.
 Qed.
+
+(* the third conjunct of wf_relem is needed: "<tel:1>;a=b" followed by U+00A0 (C2 A0) satisfies the
+   first two, but strings.TrimSpace cuts the no-break space off the parameter value; with a lone A0
+   (not a Unicode space) the element is well-formed and decoded exactly *)
+Example relem_uspace_tail_cut :
+  let mk v := {| ar_na := {| an_display := []; an_addr := AAOther (s2b "tel:1") |};
+                 ar_params := [ {| ap_key := s2b "a"; ap_val := Some ("b"%char :: map ascii_of_nat v) |} ] |} in
+  let nbsp := [194%nat; 160%nat] in let lone := [160%nat] in
+  wf_nameaddr (ar_na (mk nbsp)) && forallb wf_param (ar_params (mk nbsp)) = true /\
+  wf_relem (mk nbsp) = false /\
+  parse_route_param (rp_relem (mk nbsp)) = Ok (embed_relem (mk [])) /\
+  wf_relem (mk lone) = true /\
+  parse_route_param (rp_relem (mk lone)) = Ok (embed_relem (mk lone)).
+Proof. cbv zeta. repeat split; vm_compute; reflexivity. Qed.
 
 Theorem route_param_print_embed r : wf_relem r = true ->
   route_param_print (embed_relem r) = rp_relem r.
